@@ -19,36 +19,53 @@ theorem maxSize_lt_of_overflow {sz n : Nat} (h : sizeMax < n * sz) : mallocMaxSi
 
 /-! ### MallocAllocator -/
 
-theorem malloc_refused' {sz n : Nat} (h : sizeMax < n * sz) (os : Nat → Bool) :
-    mallocAllocate sz n os = .error .alloc := by
-  have := maxSize_lt_of_overflow h
-  simp [mallocAllocate, mallocLimit, this]
+theorem mallocBytesFor_eq (sz al n : Nat) : mallocBytesFor sz al n = wrap (n * sz) := by
+  unfold mallocBytesFor mallocOverBytes mallocBytes; split <;> rfl
 
-theorem malloc_served' {sz n bytes : Nat} (hsz : 0 < sz) {os : Nat → Bool}
-    (h : mallocAllocate sz n os = .ok bytes) : bytes = n * sz ∧ os bytes = true ∧ n * sz ≤ sizeMax := by
-  simp only [mallocAllocate, mallocLimit] at h
+theorem malloc_refused' {sz n : Nat} (al : Nat) (h : sizeMax < n * sz) (os : Nat → Bool) :
+    mallocAllocate sz al n os = .error .alloc := by
+  have := maxSize_lt_of_overflow h
+  simp [mallocAllocate, mallocLimit, mallocLimitVal, this]
+
+theorem malloc_served' {sz al n a bytes : Nat} (hsz : 0 < sz) {os : Nat → Bool}
+    (h : mallocAllocate sz al n os = .ok (a, bytes)) :
+    a = mallocAlignment al ∧ bytes = n * sz ∧ os bytes = true ∧ n * sz ≤ sizeMax := by
+  simp only [mallocAllocate, mallocLimit, mallocLimitVal] at h
   split at h
   · exact absurd h (by simp)
   · rename_i hn
     have hle := mul_le_of_le_maxSize hsz (Nat.le_of_not_gt hn)
     split at h
     · rename_i hos
-      simp only [Except.ok.injEq] at h
-      rw [mallocBytes, wrap_of_le hle] at h hos
-      exact ⟨h.symm, by rw [← h]; exact hos, hle⟩
+      simp only [Except.ok.injEq, Prod.mk.injEq] at h
+      rw [mallocBytesFor_eq, wrap_of_le hle] at h hos
+      exact ⟨h.1.symm, h.2.symm, by rw [← h.2]; exact hos, hle⟩
     · exact absurd h (by simp)
+
+/-- the alignment the C library is asked for is sufficient for a type whose alignment is a power of two -/
+theorem mallocAlignment_dvd (k : Nat) : 2 ^ k ∣ mallocAlignment (2 ^ k) := by
+  unfold mallocAlignment mallocOverCond mallocOverAlign maxAlign
+  by_cases h : 2 ^ k > 16
+  · simp [h]
+  · simp only [h, decide_false, Bool.false_eq_true, if_false]
+    have hk : k ≤ 4 := by
+      apply Classical.byContradiction
+      intro hk
+      have : 2 ^ 5 ≤ 2 ^ k := Nat.pow_le_pow_right (by decide) (by omega)
+      omega
+    exact (Nat.pow_dvd_pow 2 hk : 2 ^ k ∣ 2 ^ 4)
 
 /-! ### AlignedAllocator -/
 
 theorem aligned_refused' {sz n : Nat} (al A : Nat) (h : sizeMax < n * sz) (os : Nat → Bool) :
     alignedAllocate sz al A n os = .error .alloc := by
   have := maxSize_lt_of_overflow h
-  simp [alignedAllocate, alignedLimit, this]
+  simp [alignedAllocate, alignedLimit, alignedLimitVal, this]
 
 theorem aligned_served' {sz al A n a bytes : Nat} (hsz : 0 < sz) {os : Nat → Bool}
     (h : alignedAllocate sz al A n os = .ok (a, bytes)) :
     a = (if A = 0 then al else A) ∧ bytes = n * sz ∧ os bytes = true ∧ n * sz ≤ sizeMax := by
-  simp only [alignedAllocate, alignedLimit] at h
+  simp only [alignedAllocate, alignedLimit, alignedLimitVal] at h
   split at h
   · exact absurd h (by simp)
   · rename_i hn
@@ -183,12 +200,36 @@ theorem dbg_ptr_aligned' {sz page n al : Nat} (hsz : 0 < sz) (hp : 0 < page) (hp
       · exact Nat.dvd_add h3 (Nat.dvd_sub h2 hdm)
       · simpa using h3
 
-/-! ### DebugAllocator: lookup on deallocate -/
+/-! ### DebugAllocator: lookup on deallocate, the OS trace, disjointness -/
 
-/-- invariant of the allocation list: the lookup key of every block is its own page_ptr, and page_ptrs are distinct -/
-structure DInv (page : Nat) (l : List AInfo) : Prop where
-  key : ∀ it ∈ l, dbgLookupKey it.ptr page = it.pagePtr
-  distinct : l.Pairwise (fun a b => a.pagePtr ≠ b.pagePtr)
+/-- what is recorded about one block: its lookup key is its own page_ptr; the block lies in its mapping and ends where
+    the guard page — the last page of the mapping — begins; the mapping length does not wrap -/
+structure EntryOK (page : Nat) (it : AInfo) : Prop where
+  key : dbgLookupKey it.ptr page = it.pagePtr
+  ptr_ge : it.pagePtr ≤ it.ptr
+  ends : it.ptr + it.cap + page = it.pagePtr + it.pages * page
+  pages_pos : 1 ≤ it.pages
+  no_wrap : it.pages * page ≤ sizeMax
+
+/-- invariant of the allocation list relative to the relation `R` assumed between an older and a newer mapping -/
+structure DInvG (page : Nat) (R : AInfo → AInfo → Prop) (l : List AInfo) : Prop where
+  entry : ∀ it ∈ l, EntryOK page it
+  rel : l.Pairwise R
+
+/-- the relations used: each makes the start addresses of two recorded mappings different -/
+def Separates (R : AInfo → AInfo → Prop) : Prop :=
+  ∀ a b, 1 ≤ a.pages → 1 ≤ b.pages → R a b → a.pagePtr ≠ b.pagePtr
+
+theorem separates_ne : Separates (fun it ai => it.pagePtr ≠ ai.pagePtr) := fun _ _ _ _ h => h
+
+theorem separates_apart {page : Nat} (hp : 0 < page) : Separates (apart page) := by
+  intro a b ha hb h heq
+  have h1 : page ≤ a.pages * page := Nat.le_mul_of_pos_left page ha
+  have h2 : page ≤ b.pages * page := Nat.le_mul_of_pos_left page hb
+  unfold apart at h
+  omega
+
+abbrev DInv (page : Nat) := DInvG page (fun it ai => it.pagePtr ≠ ai.pagePtr)
 
 theorem lookupKey_block {page pp off : Nat} (hd : page ∣ pp) (ho : off < page) : dbgLookupKey (pp + off) page = pp := by
   obtain ⟨k, rfl⟩ := hd
@@ -196,73 +237,197 @@ theorem lookupKey_block {page pp off : Nat} (hd : page ∣ pp) (ho : off < page)
   rw [Nat.mul_add_mod, Nat.mod_eq_of_lt ho]
   omega
 
-theorem dbgDeallocate_finds {page : Nat} : ∀ {l : List AInfo}, DInv page l → ∀ it ∈ l,
-    dbgDeallocate page l it.ptr = some (l.erase it)
-  | [], _, it, hm => by simp at hm
-  | hd :: rest, hi, it, hm => by
-    have hkey := hi.key it hm
+theorem dbgSizeOk_iff (n size : Nat) : dbgSizeOk n size = true ↔ (n = 0 ∨ n = size) := by
+  unfold dbgSizeOk
+  simp only [decide_eq_true_eq]
+  omega
+
+theorem distinct_of_rel {page : Nat} {R : AInfo → AInfo → Prop} (hR : Separates R) {l : List AInfo}
+    (hi : DInvG page R l) : l.Pairwise (fun a b => a.pagePtr ≠ b.pagePtr) := by
+  have h := hi.rel
+  have he := hi.entry
+  clear hi
+  induction l with
+  | nil => exact List.Pairwise.nil
+  | cons x xs ih =>
+    rw [List.pairwise_cons] at h ⊢
+    refine ⟨fun y hy => hR x y (he x (by simp)).pages_pos (he y (List.mem_cons_of_mem _ hy)).pages_pos (h.1 y hy), ?_⟩
+    exact ih h.2 (fun it hit => he it (List.mem_cons_of_mem _ hit))
+
+theorem dbgDeallocate_finds' {page : Nat} : ∀ {l : List AInfo}, (∀ it ∈ l, dbgLookupKey it.ptr page = it.pagePtr) →
+    l.Pairwise (fun a b => a.pagePtr ≠ b.pagePtr) → ∀ it ∈ l, ∀ n, (n = 0 ∨ n = it.size) →
+    dbgDeallocate page l it.ptr n = some (it, l.erase it)
+  | [], _, _, it, hm, _, _ => by simp at hm
+  | hd :: rest, hk, hd', it, hm, n, hn => by
+    have hkey := hk it hm
+    have hsz := (dbgSizeOk_iff n it.size).2 hn
     by_cases heq : hd = it
     · subst heq
-      simp [dbgDeallocate, hkey]
+      simp [dbgDeallocate, hkey, hsz]
     · have hin : it ∈ rest := by
         rcases List.mem_cons.1 hm with h | h
         · exact absurd h.symm heq
         · exact h
-      have hne : hd.pagePtr ≠ it.pagePtr := (List.pairwise_cons.1 hi.distinct).1 it hin
-      have hrest : DInv page rest :=
-        ⟨fun x hx => hi.key x (List.mem_cons_of_mem _ hx), (List.pairwise_cons.1 hi.distinct).2⟩
-      have ih := dbgDeallocate_finds hrest it hin
+      have hne : hd.pagePtr ≠ it.pagePtr := (List.pairwise_cons.1 hd').1 it hin
+      have ih := dbgDeallocate_finds' (fun x hx => hk x (List.mem_cons_of_mem _ hx)) (List.pairwise_cons.1 hd').2 it hin n hn
       rw [List.erase_cons_tail (by simpa using heq)]
       simp only [dbgDeallocate, hkey, hne, if_false, ih, Option.map_some]
 
-theorem dinv_erase {page : Nat} {l : List AInfo} (hi : DInv page l) (it : AInfo) : DInv page (l.erase it) :=
-  ⟨fun x hx => hi.key x (List.mem_of_mem_erase hx), hi.distinct.sublist (List.erase_sublist)⟩
+theorem dbgDeallocate_finds {page : Nat} {R : AInfo → AInfo → Prop} (hR : Separates R) {l : List AInfo}
+    (hi : DInvG page R l) (it : AInfo) (hit : it ∈ l) (n : Nat) (hn : n = 0 ∨ n = it.size) :
+    dbgDeallocate page l it.ptr n = some (it, l.erase it) :=
+  dbgDeallocate_finds' (fun x hx => (hi.entry x hx).key) (distinct_of_rel hR hi) it hit n hn
 
-theorem dinv_append {page : Nat} {l : List AInfo} (hi : DInv page l) {ai : AInfo}
-    (hk : dbgLookupKey ai.ptr page = ai.pagePtr) (hfresh : ∀ it ∈ l, it.pagePtr ≠ ai.pagePtr) : DInv page (l ++ [ai]) := by
+theorem dinv_erase {page : Nat} {R : AInfo → AInfo → Prop} {l : List AInfo} (hi : DInvG page R l) (it : AInfo) :
+    DInvG page R (l.erase it) :=
+  ⟨fun x hx => hi.entry x (List.mem_of_mem_erase hx), hi.rel.sublist (List.erase_sublist)⟩
+
+theorem dinv_append {page : Nat} {R : AInfo → AInfo → Prop} {l : List AInfo} (hi : DInvG page R l) {ai : AInfo}
+    (hk : EntryOK page ai) (hfresh : ∀ it ∈ l, R it ai) : DInvG page R (l ++ [ai]) := by
   refine ⟨fun x hx => ?_, ?_⟩
   · rcases List.mem_append.1 hx with h | h
-    · exact hi.key x h
+    · exact hi.entry x h
     · simp only [List.mem_singleton] at h; rw [h]; exact hk
   · rw [List.pairwise_append]
-    refine ⟨hi.distinct, by simp, fun a ha b hb => ?_⟩
+    refine ⟨hi.rel, by simp, fun a ha b hb => ?_⟩
     simp only [List.mem_singleton] at hb
     rw [hb]; exact hfresh a ha
 
-theorem dinv_step {sz page : Nat} (hsz : 0 < sz) (hp : 0 < page) (hp2 : 2 * page ≤ sizeMax) {l : List AInfo}
-    (hi : DInv page l) (o : DOp) (os : List DOp) (hv : DValid sz page l (o :: os)) :
-    ∃ l', dbgStep sz page l o = some l' ∧ DInv page l' ∧ DValid sz page l' os := by
+/-- an accepted request whose mapping starts page-aligned yields a well-formed entry -/
+theorem entryOK_of_alloc {sz page n : Nat} (hsz : 0 < sz) (hp : 0 < page) (hp2 : 2 * page ≤ sizeMax)
+    {mmap : Nat → Option Nat} {l l' : List AInfo} {ai : AInfo}
+    (h : dbgAllocate sz page n mmap l = .ok (ai, l')) (hd : page ∣ ai.pagePtr) : EntryOK page ai := by
+  obtain ⟨hf, _, _, _⟩ := dbg_facts hsz hp hp2 h
+  have h1 := hf.ptr_ge
+  have h2 := hf.ends_at_guard
+  have h3 := hf.guard_last
+  refine ⟨?_, h1, by omega, ?_, hf.no_wrap⟩
+  · have : ai.ptr = ai.pagePtr + (ai.ptr - ai.pagePtr) := by omega
+    rw [this]; exact lookupKey_block hd hf.ptr_off_lt
+  · apply Classical.byContradiction
+    intro hz
+    have : ai.pages = 0 := by omega
+    rw [this] at h3
+    omega
+
+/-- permutation bookkeeping for the OS trace -/
+theorem maps_append (a b : List OsEv) : maps (a ++ b) = maps a ++ maps b := by
+  induction a with
+  | nil => rfl
+  | cons e es ih => cases e <;> simp [maps, ih]
+
+theorem unmaps_append (a b : List OsEv) : unmaps (a ++ b) = unmaps a ++ unmaps b := by
+  induction a with
+  | nil => rfl
+  | cons e es ih => cases e <;> simp [unmaps, ih]
+
+theorem dbgUnmapLen_eq {page : Nat} {it : AInfo} (h : EntryOK page it) : dbgUnmapLen it.pages page = it.pages * page := by
+  unfold dbgUnmapLen; exact wrap_of_le h.no_wrap
+
+theorem dbgDtorUnmapLen_eq {page : Nat} {it : AInfo} (h : EntryOK page it) :
+    dbgDtorUnmapLen it.pages page = it.pages * page := by
+  unfold dbgDtorUnmapLen; exact wrap_of_le h.no_wrap
+
+/-- one step of a valid history: the manager does not abort, the invariant is kept, the history stays valid, and the
+    OS calls of the step keep the balance `recorded mappings + maps = unmaps + recorded mappings afterwards` -/
+theorem dinv_step {sz page : Nat} {R : AInfo → AInfo → Prop} (hR : Separates R)
+    (hsz : 0 < sz) (hp : 0 < page) (hp2 : 2 * page ≤ sizeMax) {l : List AInfo}
+    (hi : DInvG page R l) (o : DOp) (os : List DOp) (hv : DValidG sz page R l (o :: os)) :
+    ∃ st, dbgStep sz page l o = some st ∧ DInvG page R st.1 ∧ DValidG sz page R st.1 os ∧
+      (l.map (AInfo.rng page) ++ maps st.2).Perm (unmaps st.2 ++ st.1.map (AInfo.rng page)) := by
   cases o with
   | alloc n mm =>
     obtain ⟨hfresh, hnext⟩ := hv
     cases hres : dbgAllocate sz page n (fun _ => mm) l with
     | error e =>
-      have hs : dbgStep sz page l (.alloc n mm) = some l := by simp [dbgStep, hres]
-      exact ⟨l, hs, hi, hnext l hs⟩
+      have hs : dbgStep sz page l (.alloc n mm) = some (l, []) := by simp [dbgStep, hres]
+      exact ⟨(l, []), hs, hi, hnext _ hs, by simp [maps, unmaps]⟩
     | ok r =>
       obtain ⟨ai, l'⟩ := r
-      have hs : dbgStep sz page l (.alloc n mm) = some l' := by simp [dbgStep, hres]
-      obtain ⟨hf, hl', hmm, _⟩ := dbg_facts hsz hp hp2 hres
-      have hfr := hfresh ai.pagePtr hmm
-      have hk : dbgLookupKey ai.ptr page = ai.pagePtr := by
-        have h1 := hf.ptr_ge
-        have : ai.ptr = ai.pagePtr + (ai.ptr - ai.pagePtr) := by omega
-        rw [this]; exact lookupKey_block hfr.1 hf.ptr_off_lt
-      exact ⟨l', hs, by rw [hl']; exact dinv_append hi hk hfr.2, hnext l' hs⟩
-  | free ptr =>
-    obtain ⟨⟨it, hit, hptr⟩, hnext⟩ := hv
-    have hs : dbgStep sz page l (.free ptr) = some (l.erase it) := by
-      simp only [dbgStep]; rw [← hptr]; exact dbgDeallocate_finds hi it hit
-    exact ⟨l.erase it, hs, dinv_erase hi it, hnext _ hs⟩
+      have hs : dbgStep sz page l (.alloc n mm) = some (l', [.map ai.pagePtr (dbgMapLen ai.cap page)]) := by
+        simp [dbgStep, hres]
+      obtain ⟨hf, hl', _, _⟩ := dbg_facts hsz hp hp2 hres
+      have hfr := hfresh ai l' hres
+      have he := entryOK_of_alloc hsz hp hp2 hres hfr.1
+      refine ⟨_, hs, by rw [hl']; exact dinv_append hi he hfr.2, hnext _ hs, ?_⟩
+      simp only [maps, unmaps, List.nil_append]
+      rw [hl', List.map_append, hf.maplen]
+      exact List.Perm.refl _
+  | free ptr n =>
+    obtain ⟨⟨it, hit, hptr, hn⟩, hnext⟩ := hv
+    have hfind := dbgDeallocate_finds hR hi it hit n hn
+    rw [hptr] at hfind
+    have hs : dbgStep sz page l (.free ptr n) = some (l.erase it, [.unmap it.pagePtr (dbgUnmapLen it.pages page)]) := by
+      simp [dbgStep, hfind]
+    refine ⟨_, hs, dinv_erase hi it, hnext _ hs, ?_⟩
+    simp only [maps, unmaps, List.append_nil, List.cons_append, List.nil_append]
+    rw [dbgUnmapLen_eq (hi.entry it hit)]
+    exact (List.perm_cons_erase hit).map (AInfo.rng page)
 
-theorem dbgRun_ok {sz page : Nat} (hsz : 0 < sz) (hp : 0 < page) (hp2 : 2 * page ≤ sizeMax) :
-    ∀ (ops : List DOp) (l : List AInfo), DInv page l → DValid sz page l ops →
-    ∃ l', dbgRun sz page l ops = some l' ∧ DInv page l'
-  | [], l, hi, _ => ⟨l, rfl, hi⟩
+theorem dbgRun_ok {sz page : Nat} {R : AInfo → AInfo → Prop} (hR : Separates R)
+    (hsz : 0 < sz) (hp : 0 < page) (hp2 : 2 * page ≤ sizeMax) :
+    ∀ (ops : List DOp) (l : List AInfo), DInvG page R l → DValidG sz page R l ops →
+    ∃ st, dbgRun sz page l ops = some st ∧ DInvG page R st.1 ∧
+      (l.map (AInfo.rng page) ++ maps st.2).Perm (unmaps st.2 ++ st.1.map (AInfo.rng page))
+  | [], l, hi, _ => ⟨(l, []), rfl, hi, by simp [maps, unmaps]⟩
   | o :: os, l, hi, hv => by
-    obtain ⟨l1, hs, hi1, hv1⟩ := dinv_step hsz hp hp2 hi o os hv
-    obtain ⟨l2, hr, hi2⟩ := dbgRun_ok hsz hp hp2 os l1 hi1 hv1
-    exact ⟨l2, by simp only [dbgRun, hs]; exact hr, hi2⟩
+    obtain ⟨st1, hs, hi1, hv1, hp1⟩ := dinv_step hR hsz hp hp2 hi o os hv
+    obtain ⟨st2, hr, hi2, hp2'⟩ := dbgRun_ok hR hsz hp hp2 os st1.1 hi1 hv1
+    refine ⟨(st2.1, st1.2 ++ st2.2), by simp only [dbgRun, hs, hr], hi2, ?_⟩
+    simp only [maps_append, unmaps_append]
+    -- l ++ (m1 ++ m2) ~ (l ++ m1) ++ m2 ~ (u1 ++ l1) ++ m2 ~ u1 ++ (l1 ++ m2) ~ u1 ++ (u2 ++ l2)
+    have e1 : (l.map (AInfo.rng page) ++ (maps st1.2 ++ maps st2.2)).Perm
+        ((unmaps st1.2 ++ st1.1.map (AInfo.rng page)) ++ maps st2.2) := by
+      rw [← List.append_assoc]; exact hp1.append_right _
+    have e2 : ((unmaps st1.2 ++ st1.1.map (AInfo.rng page)) ++ maps st2.2).Perm
+        (unmaps st1.2 ++ (unmaps st2.2 ++ st2.1.map (AInfo.rng page))) := by
+      rw [List.append_assoc]; exact hp2'.append_left _
+    rw [List.append_assoc]
+    exact e1.trans e2
+
+/-! ways to establish validity of a concrete history (used by the non-vacuity examples) -/
+
+theorem dvalid_alloc_ok {sz page : Nat} {R : AInfo → AInfo → Prop} {l l' : List AInfo} {n : Nat} {mm : Option Nat}
+    {ai : AInfo} {os : List DOp} (hres : dbgAllocate sz page n (fun _ => mm) l = .ok (ai, l'))
+    (h1 : page ∣ ai.pagePtr) (h2 : ∀ it ∈ l, R it ai) (hnext : DValidG sz page R l' os) :
+    DValidG sz page R l (.alloc n mm :: os) := by
+  refine ⟨fun ai' l'' h => ?_, fun st hs => ?_⟩
+  · rw [hres] at h
+    simp only [Except.ok.injEq, Prod.mk.injEq] at h
+    rw [← h.1]; exact ⟨h1, h2⟩
+  · simp only [dbgStep, hres, Option.some.injEq] at hs
+    rw [← hs]; exact hnext
+
+theorem dvalid_alloc_refused {sz page : Nat} {R : AInfo → AInfo → Prop} {l : List AInfo} {n : Nat} {mm : Option Nat}
+    {e : Err} {os : List DOp} (hres : dbgAllocate sz page n (fun _ => mm) l = .error e)
+    (hnext : DValidG sz page R l os) : DValidG sz page R l (.alloc n mm :: os) := by
+  refine ⟨fun ai' l'' h => ?_, fun st hs => ?_⟩
+  · rw [hres] at h; exact absurd h (by simp)
+  · simp only [dbgStep, hres, Option.some.injEq] at hs
+    rw [← hs]; exact hnext
+
+theorem dvalid_free {sz page : Nat} {R : AInfo → AInfo → Prop} {l l' : List AInfo} {ptr n : Nat} {it : AInfo}
+    {os : List DOp} (hfind : dbgDeallocate page l ptr n = some (it, l')) (hit : it ∈ l) (hptr : it.ptr = ptr)
+    (hn : n = 0 ∨ n = it.size) (hnext : DValidG sz page R l' os) : DValidG sz page R l (.free ptr n :: os) := by
+  refine ⟨⟨it, hit, hptr, hn⟩, fun st hs => ?_⟩
+  simp only [dbgStep, hfind, Option.some.injEq] at hs
+  rw [← hs]; exact hnext
+
+theorem dinv_nil (page : Nat) (R : AInfo → AInfo → Prop) : DInvG page R [] := ⟨by simp, List.Pairwise.nil⟩
+
+/-- the blocks of two entries whose mappings are apart do not overlap, and neither block reaches into the other's
+    (or its own) guard page -/
+theorem blocks_apart {page : Nat} {a b : AInfo} (ha : EntryOK page a) (hb : EntryOK page b) (h : apart page a b) :
+    (a.ptr + a.cap ≤ b.ptr ∨ b.ptr + b.cap ≤ a.ptr) ∧
+    (a.ptr + a.cap ≤ b.pagePtr + (b.pages - 1) * page ∨ b.pagePtr + b.pages * page ≤ a.ptr) := by
+  have ha1 := ha.ptr_ge; have ha2 := ha.ends
+  have hb1 := hb.ptr_ge; have hb2 := hb.ends
+  have hbp := hb.pages_pos
+  have hsub : (b.pages - 1) * page + page = b.pages * page := by
+    have : b.pages - 1 + 1 = b.pages := by omega
+    rw [← this, Nat.add_mul, Nat.one_mul]; simp
+  unfold apart at h
+  constructor <;> omega
 
 /-! ### debugalign.hh -/
 
